@@ -1,11 +1,12 @@
 import AFModel.Prior
+import AFModel.PriorDbl
 
 /-!
 # `Float` instance of the prior model (property C02)
 
 * `pyRound n x` – CPython's `round(x, n)` for a double: the exact binary value is rounded half-even to
   `n` decimal places and the resulting decimal is converted to the nearest double (ties to even).
-  Computed on the exact integers, no floating point involved.
+  Computed on the exact integers, no floating point involved (`pyRoundD` of `AFModel/PriorDbl.lean`).
 * `npRound14 x` – `round(numpy.float64, 14)` = `rint(x * 1e14) / 1e14` in double arithmetic (the
   rounding used by the unrepaired `UniformPrior.value_for`; overflows for `|x| > 1.8e294`).
 * `phiF`, `phiInvF` – numerical standard normal CDF / quantile (series + continued fraction for `erfc`,
@@ -17,55 +18,9 @@ namespace AF.Prior
 
 /-! ## exact rounding -/
 
-/-- finite `x = (-1)^s * m * 2^e` -/
-def decompose (x : Float) : Option (Bool × Nat × Int) :=
-  let bits : Nat := x.toBits.toNat
-  let s := bits / 2 ^ 63 == 1
-  let ex : Nat := (bits / 2 ^ 52) % 2048
-  let frac : Nat := bits % 2 ^ 52
-  if ex == 2047 then none
-  else if ex == 0 then some (s, frac, -1074)
-  else some (s, frac + 2 ^ 52, (ex : Int) - 1075)
-
-/-- `num / den` rounded to the nearest integer, ties to even (`den > 0`) -/
-def divRoundHalfEven (num den : Nat) : Nat :=
-  let q := num / den
-  let r := num % den
-  if 2 * r > den ∨ (2 * r = den ∧ q % 2 = 1) then q + 1 else q
-
-/-- `num * 2^(-e) / den` as a pair of naturals -/
-def scaled (num den : Nat) (e : Int) : Nat × Nat :=
-  if e < 0 then (num * 2 ^ e.natAbs, den) else (num, den * 2 ^ e.natAbs)
-
-/-- bit pattern (sign excluded) of the double nearest to `num / den`, ties to even -/
-def nearestBits (num den : Nat) : Nat :=
-  if num = 0 ∨ den = 0 then 0
-  else
-    let lb : Int := (num.log2 : Int) - (den.log2 : Int)
-    -- 2^(lb-1) < num/den < 2^(lb+1)
-    let e0 : Int := lb - 52
-    let (n0, d0) := scaled num den e0
-    let e1 : Int := if n0 ≥ 2 ^ 52 * d0 then e0 else e0 - 1
-    let e : Int := if e1 < -1074 then -1074 else e1
-    let (n, d) := scaled num den e
-    let q := divRoundHalfEven n d
-    let (q, e) := if q ≥ 2 ^ 53 then (q / 2, e + 1) else (q, e)
-    if q < 2 ^ 52 then q               -- subnormal (e = -1074) or zero
-    else
-      let be : Int := e + 1075
-      if be ≥ 2047 then 2047 * 2 ^ 52   -- overflow to infinity
-      else be.toNat * 2 ^ 52 + (q - 2 ^ 52)
-
-/-- CPython `round(x, n)` for a double `x` (`0 ≤ n ≤ 323`) -/
-def pyRound (n : Nat) (x : Float) : Float :=
-  match decompose x with
-  | none => x
-  | some (s, m, e) =>
-    if m = 0 ∨ e ≥ 0 then x
-    else
-      let k := divRoundHalfEven (m * 10 ^ n) (2 ^ e.natAbs)
-      let bits := nearestBits k (10 ^ n)
-      Float.ofBits ((if s then 2 ^ 63 + bits else bits).toUInt64)
+/-- CPython `round(x, n)` for a double `x`: `pyRoundD` (`AFModel/PriorDbl.lean`, exact integer arithmetic
+on the bit pattern) between the bit casts -/
+def pyRound (n : Nat) (x : Float) : Float := (pyRoundD n (Dbl.ofFloat x)).toFloat
 
 def coefA : List Float := [Float.ofBits 0x40A39A296F7D925E, Float.ofBits 0x40E052D26B2E45E4, Float.ofBits 0x40F06C1C55B78F20, Float.ofBits 0x40E66C3E869B752A, Float.ofBits 0x40CAD1D8CD4EE71D, Float.ofBits 0x409ECE5D2213C0CC, Float.ofBits 0x4060A4888B1A436E, Float.ofBits 0x400B18D91E9EEF75]
 def coefB : List Float := [Float.ofBits 0x40B46A7ECA984B69, Float.ofBits 0x40DC0E457CB1AE76, Float.ofBits 0x40E3317CAA64F4BE, Float.ofBits 0x40D4B772D5D65266, Float.ofBits 0x40B512322E75C89F, Float.ofBits 0x4085797EFDC8B3F7, Float.ofBits 0x4045281B386E1AB5, Float.ofBits 0x3FF0000000000000]
